@@ -38,9 +38,45 @@ def signature(f):
     return "C02 %s: crash after %s %s%s during %s" % (kind, what, fname, torn, op)
 
 
+def crash_cfg(torn, tw, gc, cr, ms, mp):
+    b = lambda x: "TRUE" if x else "FALSE"
+    return """SPECIFICATION Spec
+CONSTANTS
+  MaxSamples = %d
+  MaxPtrs = %d
+  TornIndexWrite = %s
+  TruncateThenWrite = %s
+  GCWindow = %s
+  CreateWindow = %s
+INVARIANTS TypeOK OpenSucceeds DurableIntact NoGarbage
+CHECK_DEADLOCK FALSE
+""" % (ms, mp, b(torn), b(tw), b(gc), b(cr))
+
+
+def design_stage(ctx, thorough):
+    """CesiumCrash.tla: masked config must satisfy the crash invariants (no window other
+    than the named ones); each named window alone must reproduce its counterexample."""
+    ms, mp = (5, 3) if not thorough else (7, 4)
+    res = []
+    r = ctx.tlc(C.AREA, "CesiumCrash", "cc.cfg", files={"cc.cfg": crash_cfg(0, 0, 0, 0, ms, mp)}, tag="cc_masked",
+                workers=6, timeout=1800)
+    res.append({"config": "masked", "distinct": r.distinct, "generated": r.generated, "violated": r.violated})
+    if r.violated:
+        ctx.notes.append("design: masked CesiumCrash config violates %s (an unnamed crash window in the model)" % r.violated)
+    states, trans = r.distinct, r.generated
+    for name, flags in (("TornIndexWrite", (1, 0, 0, 0)), ("TruncateThenWrite", (0, 1, 0, 0)),
+                        ("GCWindow", (0, 0, 1, 0)), ("CreateWindow", (0, 0, 0, 1))):
+        r = ctx.tlc(C.AREA, "CesiumCrash", "cc.cfg", files={"cc.cfg": crash_cfg(*flags, 4, 3)}, tag="cc_" + name,
+                    workers=4, timeout=600, expect_violation=True)
+        res.append({"config": "as-is:" + name, "distinct": r.distinct, "generated": r.generated, "violated": r.violated})
+        if not r.violated:
+            ctx.notes.append("design: window %s no longer produces a counterexample in CesiumCrash.tla" % name)
+    return states, trans, res
+
+
 def run(ctx):
     thorough = ctx.tier == "thorough"
-    states = trans = 0
+    states, trans, design = design_stage(ctx, thorough)
     runs = []
     runs.append(("bfs", dict(spec="GSpecBFS", T=2, depth=5, maxlen=2, maxid=3, writers=1, inv="Emit",
                              chansets='{{"I"}, {"I","D","V"}, {"D"}}', deletes=True), None, 1500 if not thorough else 12000))
@@ -106,6 +142,7 @@ def run(ctx):
         "states": states, "transitions": trans,
         "exhaustive": False,
         "signatures_seen": sorted(distinct_sigs),
+        "design_runs": design,
         "notes": ctx.notes[:10],
     }
     return ctx.finish("fault_enumeration", cov, [
